@@ -47,6 +47,12 @@ func queueScenarios(prop string, thorough bool) []Scenario {
 	add(s)
 	s = QueueScenario{Name: "forbid-allow-max1-preempt1", MaxConcurrency: 1, Creates: []string{"Forbid", "Allow", "Enqueue"}, MaxCreates: 3, Horizon: 600, Budget: mc.Budget{Lag: 1, Preempt: 1}}
 	add(s)
+	// Listener lag: the store hears about a finished Job later than the queue controller syncs;
+	// the periodic resync is then the documented safety net ("delayed but not missed").
+	s = QueueScenario{Name: "enqueue2-listenerlag-resync", MaxConcurrency: 1, Creates: []string{"Enqueue", "Enqueue"}, MaxCreates: 2, Horizon: 600, ListenerLag: true}
+	add(s)
+	s = QueueScenario{Name: "enqueue-allow-listenerlag-resync-max2", MaxConcurrency: 2, Creates: []string{"Enqueue", "Enqueue", "Allow"}, MaxCreates: 3, Horizon: 600, ListenerLag: true}
+	add(s)
 	// startAfter, owned and independent.
 	s = QueueScenario{Name: "startafter-owned", MaxConcurrency: 1, Creates: []string{"Enqueue@5", "Enqueue", "Allow@90"}, MaxCreates: 3, Horizon: 600}
 	add(s)
